@@ -230,9 +230,20 @@ package composite
 //@ props C10
 //@ sweep
 
+// A regexp match is a function of the pattern and the input of THIS evaluation: the expression is
+// compiled from the pattern here, an expression that does not compile is an error every time, and
+// the expression that is matched is the one just compiled (never nil, never one kept from before).
 //@ func composite.matchesRegexp
 //@ props C10
 //@ sweep
+//@ ghost compileFailed bool = false
+//@ let $re = result regexp.Compile
+//@ site regexp.Compile($expr)
+//@   assert [C10:the-patterns-own-expression-is-compiled] p.Regexp != nil && $expr == *p.Regexp
+//@   update compileFailed = err != nil
+//@ optional site (*regexp.Regexp).MatchString($r, $in) as match
+//@   assert [C10:the-expression-matched-is-the-one-just-compiled] $r == $re && $r != nil && !compileFailed
+//@ ensures [C10:an-expression-that-does-not-compile-is-an-error-every-time] compileFailed ==> err != nil
 
 //@ func composite.unmarshalJSON
 //@ props C10
@@ -358,7 +369,7 @@ package composite
 //@ sweep
 
 //@ func composite.ApplyFromFieldPathPatch
-//@ props C10
+//@ props C10 C05
 //@ sweep
 //@ ghost missing bool = false
 //@ let $geterr = result 1 (*fieldpath.Paved).GetValue
@@ -369,20 +380,20 @@ package composite
 //@ optional site composite.patchFieldValueToMultiple(_, _, $to, _)
 //@   assert [C10:no-patch-when-source-field-missing] !missing && $to == to
 //@ ensures [C10:optional-missing-is-skipped] (missing && (p.Policy == nil || p.Policy.FromFieldPath == nil || *p.Policy.FromFieldPath == "Optional")) ==> err == nil
-//@ ensures [C10:required-missing-is-an-error] (missing && !(p.Policy == nil || p.Policy.FromFieldPath == nil || *p.Policy.FromFieldPath == "Optional")) ==> err != nil
+//@ ensures [C10,C05:required-missing-is-an-error] (missing && !(p.Policy == nil || p.Policy.FromFieldPath == nil || *p.Policy.FromFieldPath == "Optional")) ==> err != nil
 
 //@ func composite.ApplyCombineFromVariablesPatch
-//@ props C10
+//@ props C10 C05
 //@ sweep
 //@ ghost missing bool = false
 //@ site (*fieldpath.Paved).GetValue(_, _)
 //@   update missing = missing || fieldpath.IsNotFound(err)
 //@ loop range p.Combine.Variables
-//@   invariant [C10:no-missing-variable-so-far] !missing
+//@   invariant [C10,C05:no-missing-variable-so-far] !missing
 //@ optional site composite.patchFieldValueToObject(_, _, $to, _)
 //@   assert [C10:no-combine-when-a-variable-is-missing] !missing && $to == to
 //@ ensures [C10:optional-missing-variable-is-skipped] (missing && (p.Policy == nil || p.Policy.FromFieldPath == nil || *p.Policy.FromFieldPath == "Optional")) ==> err == nil
-//@ ensures [C10:required-missing-variable-is-an-error] (missing && !(p.Policy == nil || p.Policy.FromFieldPath == nil || *p.Policy.FromFieldPath == "Optional")) ==> err != nil
+//@ ensures [C10,C05:required-missing-variable-is-an-error] (missing && !(p.Policy == nil || p.Policy.FromFieldPath == nil || *p.Policy.FromFieldPath == "Optional")) ==> err != nil
 
 //@ func composite.IsOptionalFieldPathNotFound
 //@ props C10
@@ -820,3 +831,11 @@ package composite
 //@ loop range t.ConnectionDetails
 //@   invariant [C09:rules-converted-so-far-are-the-templates] len(out) == len(t.ConnectionDetails) && forall j :: 0 <= j && j < done ==> EXTRACTED(out[j], t.ConnectionDetails[j])
 //@ ensures [C09:one-extraction-rule-per-template-entry-in-order] t != nil ==> (len(result) == len(t.ConnectionDetails) && forall j :: 0 <= j && j < len(result) ==> EXTRACTED(result[j], t.ConnectionDetails[j]))
+
+// C09 (only the keys the XRD allows reach the XR's secret): configuring connection publishers
+// REPLACES the reconciler's default publisher - which filters nothing - by exactly the given
+// publishers, in order; nothing that was configured before keeps publishing.
+//@ func composite.WithConnectionPublishers$1
+//@ props C09
+//@ requires r != nil
+//@ ensures [C09:configured-publishers-replace-the-unfiltered-default] typeis(r.composite.ConnectionPublisher, managed.PublisherChain) && len(as(r.composite.ConnectionPublisher, managed.PublisherChain)) == len(p) && forall j :: 0 <= j && j < len(p) ==> as(r.composite.ConnectionPublisher, managed.PublisherChain)[j] == p[j]
